@@ -481,6 +481,13 @@ func genC07(c *hlib.Ctx) {
 			nb, minExt = r.Range(1, 3), 1
 		}
 		blocks := g.genBlocks(nb, 10, minExt)
+		// a quarter of the store gateways hold downsampled blocks: older ranges present only as 5m and/or 1h blocks (raw
+		// retention is shorter), mixed with raw ones; Series is then asked with a maximum resolution
+		downsampled := kind == "bkt" && r.Chance(1, 2)
+		if downsampled {
+			blocks = g.genDownsampled()
+			c.Count("st:downsampled-store")
+		}
 		tb := showBlocks(blocks)
 		genStExt(c, g, blocks, c.N(8, 16))
 		for q := 0; q < nReq; q++ {
@@ -496,6 +503,14 @@ func genC07(c *hlib.Ctx) {
 			c.Count("st:" + kind)
 			if len(ms) == 0 {
 				c.Count("st:no-matchers")
+			}
+			kind := kind
+			if downsampled {
+				// MaxResolutionWindow of the Series call the label calls are held against (count is the aggregate asked for)
+				kind = fmt.Sprintf("bkt+x%d+a1", pickInt(r, 0, 300000, 3600000, 3600000, 1<<40))
+				if r.Chance(1, 2) {
+					ms = g.genLazyProneMatchers(blocks)[:1] // one selector on a stored label that occurs
+				}
 			}
 			ans := c.Do(fmt.Sprintf("st.names %s %s %d %d %s %s", kind, tb, mint, maxt, showMatchers(ms), without), true)
 			c.Count("names:answer-" + answerKind(ans))
